@@ -412,6 +412,9 @@ func populate(jail string, entries []FSEntry) {
 		p := filepath.Join(jail, e.Path)
 		if e.Kind == "d" {
 			os.MkdirAll(p, 0o755)
+		} else if strings.HasPrefix(e.Kind, "l:") {
+			os.MkdirAll(filepath.Dir(p), 0o755)
+			os.Symlink(filepath.Join(jail, strings.TrimPrefix(e.Kind, "l:")), p)
 		} else {
 			os.MkdirAll(filepath.Dir(p), 0o755)
 			var size int
